@@ -1,5 +1,6 @@
 import GeoVerif.Model.GeodLengths
 import GeoVerif.Series.GeodSeries
+import GeoVerif.Series.GeodTrig
 import GeoVerif.Spec.RealInst
 import Mathlib.Tactic.Ring
 /-!
@@ -69,5 +70,41 @@ theorem a1_table : checkA1 = true := by decide +kernel
 theorem c1_table : ((List.range N).all fun i => checkC1 (i + 1)) = true := by decide +kernel
 theorem a2_table : checkA2 = true := by decide +kernel
 theorem c2_table : ((List.range N).all fun i => checkC2 (i + 1)) = true := by decide +kernel
+
+/-! ### I4: the area table `C4coeff` (bivariate in `n`, `ε`) -/
+
+/-- the layout of `C4coeff`/`C4f` consumes the table exactly -/
+theorem table_sizes4 : c4Size = Gen.GeodSeries.C4coeff.length := by decide +kernel
+
+/-- `t(x) = x + √(1 + 1/x)·asinh √x = x + (1 + x) h(x)` where `h(x) = asinh(√x)/√(x(1 + x))` is the power-series solution
+    of `2x(1 + x) h′ + (1 + 2x) h = 1`: the coefficients `hCoef` used below satisfy this ODE (mod `x^{N+1}`); no table involved -/
+theorem t_series : checkH (N + 1) = true := by decide +kernel
+
+/-- `h_k(x, y) = Σ_{i+j=k} x^i y^j` by the recursion used in `i4DividedDifference` -/
+def hk (x y : ℝ) : ℕ → ℝ
+  | 0 => 1
+  | k + 1 => x * hk x y k + y ^ (k + 1)
+
+/-- `(x − y)·h_k(x, y) = x^{k+1} − y^{k+1}`: so `[t(x) − t(y)]/(x − y) = Σ_{m ≥ 1} t_m h_{m−1}(x, y)` for `t = Σ t_m x^m` -/
+theorem hk_spec (x y : ℝ) (k : ℕ) : (x - y) * hk x y k = x ^ (k + 1) - y ^ (k + 1) := by
+  induction k with
+  | zero => simp [hk]
+  | succ k ih =>
+    have : (x - y) * hk x y (k + 1) = x * ((x - y) * hk x y k) + (x - y) * y ^ (k + 1) := by simp only [hk]; ring
+    rw [this, ih]; ring
+
+/-- **C4** (Karney 2013, eq. 59–63; `computeI4` of `maxima/geod.mac`).  `I4(σ) = Σ_{l=0}^{N−1} C4_l cos((2l + 1)σ)` and
+    `−dI4/dσ = [t(e′²) − t(k² sin²σ)]/(e′² − k² sin²σ) · sin σ/2` with `e′² = 4n/(1 − n)²`, `k² = 4ε/(1 − ε)²`, `t` as in `t_series`.
+    The divided difference is expanded directly (`hk_spec`) as a trigonometric polynomial in `σ` with coefficients in
+    `ℚ[n, ε]` modulo total degree `N` — the truncation `jtaylor(·, n, eps, N−1)` of the generator.  Certified:
+    `Σ_l (2l + 1) C4_l sin((2l + 1)σ)` (table `C4coeff`, layout of `C4f`) **is** that expansion times `sin σ/2`.
+    Full certificate of the 77-entry (N = 6) table: all its entries have total degree `≤ N − 1`. -/
+theorem c4_table : checkC4Expansion = true := by decide +kernel
+
+/-- second, independent route (no divided difference): multiplying out,
+    `[Σ_l (2l + 1) C4_l sin((2l + 1)σ)] · (e′² − k² sin²σ) = [t(e′²) − t(k² sin²σ)] · sin σ/2` modulo total degree `N + 1`.
+    The factor `e′² − k² sin²σ` has lowest-order part `4(n − ε sin²σ) ≠ 0` and the coefficient ring is an integral
+    domain, so this relation alone also determines the first factor modulo total degree `N`. -/
+theorem c4_relation : checkC4 = true := by decide +kernel
 
 end GeoVerif.Props.C03
